@@ -5,7 +5,9 @@ pub mod c01;
 pub mod c02;
 pub mod c04;
 pub mod c05;
+pub mod c06;
 pub mod c07;
+pub mod c08;
 pub mod c09;
 pub mod c11;
 pub mod c13;
@@ -16,6 +18,7 @@ pub mod drive;
 pub mod gen;
 pub mod json;
 pub mod prng;
+pub mod refread;
 pub mod sink;
 pub mod src;
 pub mod work;
